@@ -93,6 +93,10 @@ def native(size, kind, I):
 
 def replay(data):
     common.use_repo()
+    if data.get('fn') == 'ad':
+        msg = native_ad(data['ad'], dict(tuple(x) for x in data['regs']), data['I'], data['txt'])
+        print(msg or 'contract holds on this input')
+        return 1 if msg else 0
     msg = native(data['size'], data['kind'], data['I'])
     print(msg or 'contract holds on this input')
     return 1 if msg else 0
@@ -160,3 +164,144 @@ def ob_smt(run):
                     break
     run.bulk('check_imm_size on boundary immediates (native twin)', cnt - bad, 'BND', 'cpython-enum', 0.0, BOUNDED_OK)
     return n
+
+
+# ------------------------------------------------------------------------------------------------ ad_to_generic
+def ad_contract():
+    """ad_to_generic(a): the generic forms of an operand whose displacement/immediate is replaced by a size class.  From the property
+       ("a value that does not fit a form excludes that form") and the call site forge_opc (which encodes the value with check_imm_size):
+         every returned form keeps every key of a except 'imm', which is dropped (only when the value is 0) or replaced by u08 / s08 / u32;
+         s08 only if the value, read as a signed 32-bit number, lies in -128..127;  u08 only if it lies in 0..255 (or, for a memory operand
+         without displacement, as the placeholder the table lookup needs);  for a memory operand the u32 form is always present and, when the
+         signed value lies in -128..127, so is the s08 form (otherwise the disp8 encoding would be lost: converse direction of C03)."""
+    import contracts.modint as cm
+    from pyvc.contract import Contract
+    from specs.duck import And, Or, Not, Implies, is_sym
+    C = dict(cm.CONTRACTS)
+    A = 'miasmx.arch.ia32_arch'
+    C['%s:imm_to_generic' % A] = Contract('%s:imm_to_generic' % A, inline=True)
+    for m in ('__lt__', '__ge__', '__le__', '__gt__'):
+        C['miasmx.tools.modint:moduint.%s' % m] = Contract('miasmx.tools.modint:moduint.%s' % m, inline=True)
+    def post(ctx, res, a):
+        if not isinstance(res, list): return False
+        if not res and a.get('ad'): return False          # a memory operand always has its disp32 form; a plain immediate may fit no byte form
+        I = a.get('imm')
+        J = None
+        if I is not None:
+            J = ((I + (1 << 31)) % (1 << 32)) - (1 << 31)
+        cl = []
+        tags = []
+        for o in res:
+            if not isinstance(o, dict): return False
+            ko = set(k for k in o if k != 'imm'); ka = set(k for k in a if k != 'imm')
+            if ko != ka: return False
+            for k in ka:
+                if k == 'ad':
+                    if bool(o[k]) != bool(a[k]): return False
+                elif o[k] is not a[k] and o[k] != a[k]: return False
+            if 'imm' in o:
+                t = o['imm']
+                if t not in ('u08', 's08', 'u32'): return False
+                tags.append(t)
+                if I is not None:
+                    if t == 's08': cl.append(And(J >= -128, J < 128))
+                    if t == 'u08': cl.append(And(I >= 0, I <= 255))
+            else:
+                tags.append(None)
+                if I is not None: cl.append(I == 0)
+        if a.get('ad'):
+            if 'u32' not in tags: return False
+            if I is not None:
+                # completeness of the short form (a dropped disp8 candidate is the C03-1 class of defect)
+                cl.append(Implies(And(J >= -128, J < 128), 's08' in tags))
+        return And(*cl) if cl else True
+    qn = '%s:ad_to_generic' % A
+    return qn, Contract(qn, pre=lambda ctx, a: True, post=post, frame=['a.ad']), C
+
+def ob_ad(run):
+    import z3
+    from pyvc import engine
+    from pyvc.runner import resolve
+    qn, top, C = ad_contract()
+    mod, node, seg, path = resolve(qn)
+    run.function(qn, seg, path, node.lineno)
+    shapes = []
+    for ad in (False, 'u32', 'u08', True):
+        for regs in ({}, {0: 1}, {3: 1, 6: 2}):
+            for imm in (None, 'sym'):
+                for txt in (False, True):
+                    if not ad and (regs or imm is None): continue       # plain immediates only
+                    shapes.append((ad, regs, imm, txt))
+    n = 0
+    for (ad, regs, imm, txt) in shapes:
+        def make_args(ctx, ad=ad, regs=regs, imm=imm, txt=txt):
+            ins = {}
+            a = {'ad': ad, 'size': 'u32'}
+            a.update(regs)
+            if imm:
+                v = z3.Int('imm'); ins['imm'] = v; a['imm'] = v
+            if txt: a['txt'] = 'ebx+esi*2'
+            return [a], ins
+        base = 'C02:ad_to_generic[ad=%s,regs=%s,%s%s]' % (ad, '+'.join('%d*%d' % kv for kv in sorted(regs.items())) or '-', 'imm' if imm else 'noimm', ',txt' if txt else '')
+        V = engine.verify_function(qn, node, vars(mod), top, C, make_args)
+        if V.unsupported:
+            run.ob(base + ':generate', DOWNGRADED, 'SMT-A', 'pyvc', detail=V.unsupported); continue
+        for cl, d in sorted(V.clauses.items()):
+            n += 1
+            oid = base + ':' + cl
+            if d['status'] == 'unsat':
+                run.ob(oid, DISCHARGED, 'SMT-A', 'z3', d['secs'], func=qn)
+            elif d['status'] == 'sat':
+                w = d['witness'] or {}
+                try: I = int(w.get('imm', 0))
+                except Exception: I = 0
+                msg = native_ad(ad, regs, I if imm else None, txt)
+                if msg is None:
+                    run.ob(oid, DOWNGRADED, 'SMT-A', 'z3', d['secs'], detail='counter-model %s does not replay on the real function; bounded twin below' % w)
+                else:
+                    data = {'fn': 'ad', 'ad': ad, 'regs': sorted(regs.items()), 'I': I if imm else None, 'txt': txt}
+                    rp = run.write_replay(oid, {'obligation': oid, 'inputs': w}, REPLAY % dict(verif=common.VERIF, repo=common.REPO, data=data))
+                    run.ob(oid, FAILED, 'SMT-A', 'z3', d['secs'], detail='%s; counterexample %s; native: %s' % (d['detail'], w, msg), witness=rp, confirmed=True, func=qn)
+            else:
+                run.ob(oid, DOWNGRADED, 'SMT-A', 'z3', d['secs'], detail='solver unknown')
+    # twin
+    cnt = bad = 0
+    for (ad, regs, imm, txt) in shapes:
+        for I in ([None] if not imm else [-(1 << 31), -129, -128, -127, -1, 0, 1, 127, 128, 255, 256, (1 << 31) - 1, 1 << 31, (1 << 32) - 129, (1 << 32) - 128, (1 << 32) - 1]):
+            cnt += 1
+            msg = native_ad(ad, regs, I, txt)
+            if msg:
+                bad += 1
+                oid = 'C02:ad_to_generic[ad=%s,regs=%s,%s%s]:twin' % (ad, '+'.join('%d*%d' % kv for kv in sorted(regs.items())) or '-', 'imm' if imm else 'noimm', ',txt' if txt else '')
+                rp = run.write_replay(oid, {'obligation': oid}, REPLAY % dict(verif=common.VERIF, repo=common.REPO, data={'fn': 'ad', 'ad': ad, 'regs': sorted(regs.items()), 'I': I, 'txt': txt}))
+                run.ob(oid, FAILED, 'BND', 'cpython-enum', detail=msg, witness=rp, confirmed=True, func=qn)
+                break
+    run.bulk('ad_to_generic on boundary displacements (native twin)', cnt - bad, 'BND', 'cpython-enum', 0.0, BOUNDED_OK)
+    return n
+
+def native_ad(ad, regs, I, txt):
+    import miasmx.arch.ia32_arch as A
+    a = {'ad': ad, 'size': 'u32'}
+    a.update(dict(regs))
+    if I is not None: a['imm'] = I
+    if txt: a['txt'] = 'ebx+esi*2'
+    a0 = dict(a)
+    try:
+        res = A.ad_to_generic(a)
+    except Exception as ex:
+        return 'ad_to_generic(%s) raised %s: %s' % (a0, type(ex).__name__, ex)
+    J = None if I is None else ((I + (1 << 31)) % (1 << 32)) - (1 << 31)
+    tags = []
+    for o in res:
+        if set(k for k in o if k != 'imm') != set(k for k in a0 if k != 'imm'): return 'ad_to_generic(%s): form %s loses or gains a key' % (a0, o)
+        t = o.get('imm', None)
+        tags.append(t)
+        if 'imm' in o:
+            if t not in ('u08', 's08', 'u32'): return 'ad_to_generic(%s): form %s keeps a raw immediate' % (a0, o)
+            if I is not None and t == 's08' and not -128 <= J < 128: return 'ad_to_generic(%s) offers the disp8 form for %d' % (a0, J)
+            if I is not None and t == 'u08' and not 0 <= I <= 255: return 'ad_to_generic(%s) offers the unsigned byte form for %d' % (a0, I)
+        elif I is not None and I != 0: return 'ad_to_generic(%s) drops the non-zero displacement' % (a0,)
+    if ad:
+        if 'u32' not in tags: return 'ad_to_generic(%s): no 32-bit form' % (a0,)
+        if I is not None and -128 <= J < 128 and 's08' not in tags: return 'ad_to_generic(%s): the disp8 form is missing for %d' % (a0, J)
+    return None
